@@ -62,19 +62,20 @@ func (a *multiClusterTokenReviewAuthenticator) AuthenticateToken(ctx context.Con
 	var tokenAuth authenticator.Token
 	if a.tokenFailureCacheTTL == 0 && a.tokenSuccessCacheTTL == 0 {
 		// if token cache ttl is 0, call upstream cluster directly
-		tokenAuth = a.authenticateTokenForHost(host)
+		tokenAuth = a.authenticateTokenForCluster(cluster)
 	} else {
-		// split cache by host
-		cache, loaded := a.caches.Load(host)
+		// split cache by cluster, not by host: a server name can move from one
+		// cluster to another, the answers cached for it must not move with it
+		cache, loaded := a.caches.Load(cluster)
 		if !loaded {
 			// use token cache, if no cache is hit, authenticateToken() will be called
 			// tokencache use a new context inheriting from context.Background() without all value of req.Context.
-			cache, loaded = a.caches.LoadOrStore(host, tokencache.New(a.authenticateTokenForHost(host), false, a.tokenSuccessCacheTTL, a.tokenFailureCacheTTL))
+			cache, loaded = a.caches.LoadOrStore(cluster, tokencache.New(a.authenticateTokenForCluster(cluster), false, a.tokenSuccessCacheTTL, a.tokenFailureCacheTTL))
 			// destry cache when cluster stopped
 			if !loaded {
 				go func() {
 					<-cluster.Context().Done()
-					a.caches.Delete(host)
+					a.caches.Delete(cluster)
 				}()
 			}
 		}
@@ -84,12 +85,13 @@ func (a *multiClusterTokenReviewAuthenticator) AuthenticateToken(ctx context.Con
 }
 
 // authenticate token by webhook.
-func (a *multiClusterTokenReviewAuthenticator) authenticateTokenForHost(host string) authenticator.TokenFunc {
+func (a *multiClusterTokenReviewAuthenticator) authenticateTokenForCluster(cluster *clusters.ClusterInfo) authenticator.TokenFunc {
 	return authenticator.TokenFunc(func(ctx context.Context, token string) (*authenticator.Response, bool, error) {
-		_, client, err := a.clientProvider.ClientFor(host)
+		endpoint, err := cluster.PickOne()
 		if err != nil {
 			return nil, false, err
 		}
+		client := endpoint.Clientset()
 		// err is always nil, can be ignored
 		tokenauth, _ := webhooktoken.NewFromInterface(client.AuthenticationV1().TokenReviews(), a.implicitAuds)
 		newCtx, cancel := context.WithTimeout(ctx, 2*time.Second)
